@@ -33,7 +33,7 @@ m = {
     "engines": [{"name": "pyvc", "path": "pyvc/", "serves_properties": [c["property_id"] for c in checks],
                  "kind_free_text": "contract-based deductive verifier for a Python subset built here: re-reads /repo's source with ast on every run, symbolically executes the real statements against sidecar contracts in contracts/ (pre/postconditions, loop invariants, step assertions, abstract Binner contracts, callee contracts with frame clauses), discharges every verification condition with z3 5.1 (E-matching for the quantified T1 conditions; quantifier-free for T2); tiers T1 unbounded / T2 bounded shape, all values, counter-models replayed on the real code / static frame-purity-clock-interface-opacity judgements / T3 run-time deal contracts on a bounded domain (stand-in, never counted proved)"}],
     "checks": checks,
-    "notes": "See DESIGN.md (as built; the round-0 plan is DESIGN_round0_plan.md). Exit codes: 0 held, 1 violation (VIOLATION line), 2 undecided, 3 checker failure. Genuine defects of the pinned tree were repaired by 'fix:' commits in /repo or are listed in known_findings.json. seeded/ holds 120 independently written breaking changes with demonstrations (seeded/RESULTS.md: which obligations catch which); selftest/harmless/ holds 34 behaviour-preserving edits that must not alarm (tools/harmless_all.py).",
+    "notes": "See DESIGN.md (as built; the round-0 plan is DESIGN_round0_plan.md). Exit codes: 0 held, 1 violation (VIOLATION line), 2 undecided, 3 checker failure. Genuine defects of the pinned tree were repaired by 'fix:' commits in /repo or are listed in known_findings.json. seeded/ holds 140 independently written breaking changes with demonstrations (seeded/RESULTS.md: which obligations catch which); selftest/harmless/ holds 34 behaviour-preserving edits that must not alarm (tools/harmless_all.py).",
     "not_applicable": [{"property_id": k, "reason": v} for k, v in NOT_APPLICABLE.items()],
 }
 json.dump(m, open(os.path.join(ROOT, "MANIFEST.json"), "w"), indent=1)
